@@ -104,6 +104,18 @@ pub fn run(tier: &str, seed: u64, focus: &str, out: &mut Out) {
             let s: Vec<u32> = (0..n).map(|_| if latin { if rng.chance(1, 3) { 0xA0 + rng.below(0x60) as u32 } else { 0x20 + rng.below(0x5F) as u32 } } else { rand_scalar(&mut rng) }).collect();
             out.put(&encode_str_case(next(), "random", &s, rng.chance(3, 4)));
         }
+        // (2b) runs of one class with a few unusual scalars inside (UTF-8 continuation bytes 0x80..0xBF inside C40/Text/X12 runs)
+        let odd: [u32; 12] = [0x80, 0x85, 0x9F, 0x100, 0x153, 0x17F, 0x20AC, 0x2028, 0x1F600, 0xA0, 0x7F, 0x0A];
+        for _ in 0..(if thorough { 3000 } else { 500 }) {
+            let c = *rng.pick(&[Class::Upper, Class::Lower, Class::Digits, Class::X12, Class::EdifactPunct, Class::UpperDigit, Class::LowerSpace]);
+            let n = rng.range(4, 40);
+            let mut s: Vec<u32> = class_string(&mut rng, c, n).into_iter().map(|x| x as u32).collect();
+            for _ in 0..rng.range(1, 3) {
+                let pos = rng.below(s.len() + 1);
+                s.insert(pos, *rng.pick(&odd));
+            }
+            out.put(&encode_str_case(next(), "runsWithOddball", &s, true));
+        }
         // (3) macro-enveloped bodies of every tail shape
         let mut bodies: Vec<Vec<u32>> = vec![vec![], vec![0x41], vec![0x1F918]];
         for c in CLASSES {
@@ -301,6 +313,21 @@ pub fn run(tier: &str, seed: u64, focus: &str, out: &mut Out) {
                 })
                 .collect();
             out.put(&json!({"id": next(), "fam": "str", "stratum": "utf8seqs", "events": [{"ev": "Utf8Seqs", "res": r}]}));
+        }
+        // valid UTF-8 of non-ASCII scalars under the 8-bit / 7-bit character sets
+        for _ in 0..(if thorough { 2000 } else { 300 }) {
+            let mut bs: Vec<u8> = Vec::new();
+            for _ in 0..rng.range(1, 4) {
+                let c = if rng.chance(1, 3) { 0x20 + rng.below(0x5F) as u32 } else { rand_scalar(&mut rng) };
+                let mut buf = [0u8; 4];
+                bs.extend_from_slice(char::from_u32(c).unwrap().encode_utf8(&mut buf).as_bytes());
+            }
+            let eci = *rng.pick(&[27u8, 27, 3, 11, 13, 0]);
+            let mut s = vec![241, eci + 1];
+            for b in &bs {
+                s.extend(ascii_cw(*b));
+            }
+            out.put(&json!({"id": next(), "fam": "str", "stratum": "eciBodyUtf8", "events": [{"ev": "EciBody", "eci": eci, "bytes": bytes_json(&bs), "res": decode_str_of(s)}]}));
         }
         // ECI 27 (US-ASCII) and multi-ECI streams
         for _ in 0..(if thorough { 2000 } else { 300 }) {
